@@ -25,12 +25,12 @@ Proof. exact closure_example. Qed.
 (* _set_missing_names: the name search always terminates with a free name, and afterwards no node and no
    variable of the closure is unnamed.  (partial: that the nodes added later by build_model - model and
    seed nodes - keep this up to the final closure is covered by the correspondence, not proved) *)
-Theorem C15_names_nonempty_partial : forall w ns vs,
-  set_missing_names w ns vs <> None /\
-  forall w', set_missing_names w ns vs = Some w' ->
+Theorem C15_names_nonempty_partial : forall proxy_fix w ns vs,
+  set_missing_names proxy_fix w ns vs <> None /\
+  forall w', set_missing_names proxy_fix w ns vs = Some w' ->
     (forall n, In n ns -> n < List.length (w_nodes w) -> name_of w' n <> ""%string) /\
     (forall v, In v vs -> v < List.length (w_vars w) -> vname_of w' v <> ""%string).
-Proof. intros w ns vs. split; [apply set_missing_names_total|apply set_missing_names_nonempty]. Qed.
+Proof. intros pf w ns vs. split; [apply set_missing_names_total|apply set_missing_names_nonempty]. Qed.
 Print Assumptions C15_names_nonempty_partial.
 
 Theorem C15_fresh_name_is_free : forall pre c other c' nm,
@@ -41,14 +41,14 @@ Print Assumptions C15_fresh_name_is_free.
 Example C15_names_example :
   let w := mkW [mkN "n0" [] [] None None false false false [] []; mkN "" [] [] None None false false false [] [];
                 mkN "" [0; 1] [] None None false false false [] []] [] [] in
-  option_map (fun w' => map (name_of w') [2; 1; 0]) (set_missing_names w [2; 1; 0] []) = Some ["n1"; "n2"; "n0"]%string.
+  option_map (fun w' => map (name_of w') [2; 1; 0]) (set_missing_names true w [2; 1; 0] []) = Some ["n1"; "n2"; "n0"]%string.
 Proof. exact names_example. Qed.
 
 (* an accepted build: every node / variable once, names pairwise distinct, closed under inputs and
    variable membership, outputs the exact inverse of inputs, every node owned by the model, and a
-   topological update order exists (for both code variants and every topological-sort oracle) *)
-Theorem C15_build_ok : forall strip check_first topo w rn rv w' m,
-  build strip check_first topo w rn rv = (w', Ok m) ->
+   topological update order exists (for all code variants and every topological-sort oracle) *)
+Theorem C15_build_ok : forall strip check_first proxy_fix topo w rn rv w' m,
+  build strip check_first proxy_fix topo w rn rv = (w', Ok m) ->
   NoDup (m_nodes m) /\ NoDup (m_vars m) /\
   NoDup (map (name_of w') (m_nodes m)) /\
   NoDup (map (vname_of w') (m_vars m)) /\
@@ -62,7 +62,7 @@ Proof. exact build_ok_spec. Qed.
 Print Assumptions C15_build_ok.
 
 Example C15_build_example :
-  match build true true naive_topo ex_seeded [] [0] with
+  match build true true true naive_topo ex_seeded [] [0] with
   | (w', Ok m) => map (name_of w') (m_nodes m) =
                   ["x_var_value"; "s"; "_model_s_seed"; "a"; "_model_log_prob"; "_model_log_prior"; "_model_log_lik"]%string
   | _ => False
@@ -91,7 +91,7 @@ Print Assumptions C15_cycle_has_no_order.
 
 Example C15_cycle_example :
   let w := mkW [mkN "a" [1] [] None None false false false [] []; mkN "b" [0] [] None None false false false [] []] [] [] in
-  path w 0 0 /\ snd (build true true naive_topo w [0] []) = Err Cycle.
+  path w 0 0 /\ snd (build true true true naive_topo w [0] []) = Err Cycle.
 Proof. exact cycle_example. Qed.
 
 (* duplicate node / variable / group names, a node of another model, or no topological order: rejected *)
@@ -104,14 +104,14 @@ Proof. exact model_init_rejects. Qed.
 Print Assumptions C15_rejects.
 
 (* every structural mutator of an object that belongs to a model is rejected, nothing changes *)
-Theorem C15_frozen : forall w t mu,
-  target_inmodel w t = true -> mutate w t mu = (w, Err Frozen).
+Theorem C15_frozen : forall proxy_fix w t mu,
+  target_inmodel w t = true -> mutate proxy_fix w t mu = (w, Err Frozen).
 Proof. exact mutate_frozen. Qed.
 Print Assumptions C15_frozen.
 
 Example C15_frozen_example :
-  match build true true naive_topo ex_seeded [] [0] with
-  | (w', Ok m) => mutate w' (TNode 1) (MSetName "t") = (w', Err Frozen) /\ mutate w' (TVar 0) (MSetName "t") = (w', Err Frozen)
+  match build true true true naive_topo ex_seeded [] [0] with
+  | (w', Ok m) => mutate true w' (TNode 1) (MSetName "t") = (w', Err Frozen) /\ mutate true w' (TVar 0) (MSetName "t") = (w', Err Frozen)
   | _ => False
   end.
 Proof. exact frozen_example. Qed.
@@ -128,9 +128,9 @@ Proof. exact rejected_build_keeps_outputs_example. Qed.
 
 Theorem C15_rejected_build_clears_outputs_refuted :
   exists w rn rv i,
-    match build true false naive_topo w rn rv with
+    match build true false true naive_topo w rn rv with
     | (w1, Ok m) =>
-      match build true false naive_topo w1 [i] [] with
+      match build true false true naive_topo w1 [i] [] with
       | (w2, Err InModel) => In i (m_nodes m) /\ outs_of w1 i <> outs_of w2 i
       | _ => False
       end
@@ -146,8 +146,8 @@ Theorem C15_pop_spec : forall w m j,
 Proof. intros w m j. split; [apply pop_spec|apply pop_keeps_structure]. Qed.
 Print Assumptions C15_pop_spec.
 
-Theorem C15_pop_unfreezes : forall w m i mu, In i (m_nodes m) ->
-  mutate (pop w m) (TNode i) mu = (do_mutation (pop w m) (TNode i) mu, Ok tt).
+Theorem C15_pop_unfreezes : forall proxy_fix w m i mu, In i (m_nodes m) ->
+  mutate proxy_fix (pop w m) (TNode i) mu = (do_mutation proxy_fix (pop w m) (TNode i) mu, Ok tt).
 Proof. exact pop_unfreezes. Qed.
 Print Assumptions C15_pop_unfreezes.
 
@@ -157,7 +157,7 @@ Print Assumptions C15_pop_unfreezes.
 Theorem C15_pop_rebuild_seeded_partial :
   match rebuild true ex_seeded [] [0] with
   | (w2, Ok m1, Ok m2) =>
-    match build true true naive_topo w2 (popped_nodes w2 m1) (m_vars m1) with
+    match build true true true naive_topo w2 (popped_nodes w2 m1) (m_vars m1) with
     | (w3, Ok m3) =>
       List.length (m_nodes m3) = List.length (m_nodes m1) /\
       forall s, In s (map (name_of w3) (m_nodes m3)) <-> In s (map (name_of w2) (m_nodes m1))
@@ -174,3 +174,32 @@ Theorem C15_pop_rebuild_seeded_refuted :
                   | _ => False end.
 Proof. exact pop_rebuild_seeded_refuted. Qed.
 Print Assumptions C15_pop_rebuild_seeded_refuted.
+
+(* Var.name and the VarValue proxy: the repaired setter (66a7abc) names the proxy whenever it still carries
+   the default name; the code as found left "_var_value" on the proxies of unnamed variables with
+   user-named value nodes, so two of them were rejected for duplicate node names (defect F10) *)
+Theorem C15_var_name_renames_proxy : forall w v pv nm,
+  getv w v = Some pv -> nm <> ""%string ->
+  v_value pv <> v_varvalue pv -> v_dist pv <> Some (v_varvalue pv) ->
+  v_varvalue pv < List.length (w_nodes w) ->
+  (name_of w (v_varvalue pv) = ""%string \/ name_of w (v_varvalue pv) = (v_name pv ++ "_var_value")%string) ->
+  name_of (set_var_name true w v nm) (v_varvalue pv) = (nm ++ "_var_value")%string.
+Proof. exact set_var_name_renames_proxy. Qed.
+Print Assumptions C15_var_name_renames_proxy.
+
+Example C15_unnamed_vars_named_values_example :
+  match build true true true naive_topo ex_proxies [] [0; 1] with
+  | (w', Ok m) => map (vname_of w') (m_vars m) = ["v0"; "v1"]%string /\
+                  In "v0_var_value"%string (map (name_of w') (m_nodes m)) /\
+                  In "v1_var_value"%string (map (name_of w') (m_nodes m))
+  | _ => False
+  end.
+Proof. exact unnamed_vars_named_values_example. Qed.
+
+Theorem C15_unnamed_vars_named_values_refuted :
+  exists w rv,
+    NoDup (filter (fun s => negb (String.eqb s "_var_value")) (map n_name (w_nodes w))) /\
+    snd (build true true false naive_topo w [] rv) = Err DupNode /\
+    is_ok (snd (build true true true naive_topo w [] rv)) = true.
+Proof. exact unnamed_vars_named_values_refuted. Qed.
+Print Assumptions C15_unnamed_vars_named_values_refuted.
